@@ -64,6 +64,13 @@ MAY_PANIC = {
     "chrono::FixedOffset::west": "chrono-range",
     "chrono::TimeZone::ymd": "chrono-range",
     "chrono::offset::LocalResult::unwrap": "unwrap",
+    # documented: panic when the UTC offset pushes the local date-time out of NaiveDateTime's range (chrono 0.4.39 datetime/mod.rs)
+    "chrono::DateTime::naive_local": "chrono-local-range",
+    "chrono::DateTime::date_naive": "chrono-local-range",
+    "chrono::DateTime::date": "chrono-local-range",
+    "chrono::DateTime::to_rfc3339": "chrono-local-range",
+    "chrono::DateTime::to_rfc3339_opts": "chrono-local-range",
+    "chrono::DateTime::to_rfc2822": "chrono-local-range",
     "std::fmt::format": "fmt-to-string",
     "<T as std::string::ToString>::to_string": "fmt-to-string",
     "std::iter::Iterator::step_by": "vec-pos",
@@ -190,9 +197,13 @@ def operand_type(body, op):
 class PanicRule:
     """discharges panic sites reachable from an entry set"""
 
-    def __init__(self, ctx):
+    def __init__(self, ctx, parsed_timestamps_only=False):
         self.ctx = ctx
         self.prog = ctx.prog
+        # properties whose inputs are text: the only DateTimes that exist are the ones the decoders build, whose years are the
+        # four digits of the date token (0000-9999), far inside chrono's range; the chrono-local-range class needs a DateTime within
+        # a day of chrono's +-262143-year limits
+        self.parsed_timestamps_only = parsed_timestamps_only
         self.table = {}
         if os.path.exists(TABLE):
             for e in json.load(open(TABLE))["entries"]:
@@ -252,6 +263,8 @@ class PanicRule:
             if ok:
                 return True, "table:%s (%s)" % (e["predicate"], why)
             return False, "table predicate %s no longer holds: %s" % (e["predicate"], why)
+        if s.cls == "chrono-local-range" and self.parsed_timestamps_only:
+            return True, "D-domain:timestamps reaching this site were built by the decoders (years 0000-9999)"
         for rule in (self.auto_const_bounds, self.auto_const_divisor, self.auto_index_guarded, self.auto_sep_in_iteration,
                      self.auto_counter, self.auto_add_under_bound, self.auto_captures_get0, self.auto_fmt, self.auto_buf_size):
             r = rule(s)
